@@ -172,6 +172,13 @@ impl Worker for W {
                     // a value binding that is a call, inside a `rec` group (the F47 scenario), and
                     // IO actions with a polymorphic result under run_io (the F46 scenario)
                     let n = rng.below(50);
+                    if rng.chance(1, 3) {
+                        // a record literal whose fields are in another order than the annotated
+                        // parameter type (the F53 scenario)
+                        let src = format!("let f r : {{ x : Int, y : String }} -> Int = r.x #Int+ {}\n(f {{ y = \"s\", x = 1 }}, f {{ x = 2, y = \"t\" }})\n", n);
+                        return Some(json!({"kind": "record-literal-reordered", "modules": [], "src": src, "settings": [0b00000, 0b00010, 0b00110, 0b00001], "feats": ["record-literal-reordered"],
+                                           "key": {"family": "record-literal-reordered", "permuted_record_literal": true}}));
+                    }
                     let (kind, src) = if rng.chance(1, 2) {
                         ("rec-group-call-binding", format!("let g x = x #Int+ {}\nrec let f x = if x #Int== 0 then 0 else f (x #Int- 1)\nlet l = g {}\nin (f 3, l)\n", n, n))
                     } else {
@@ -235,8 +242,9 @@ impl Worker for W {
                 let twin_json = if twin != prog { serde_json::to_value(&twin).unwrap() } else { Value::Null };
                 let mut feats: Vec<String> = g.feats.iter().map(|s| s.to_string()).collect();
                 feats.push("mutant".into());
+                let permuted = how.contains(&"permute-record-fields");
                 Some(json!({"kind": "mutant", "modules": [], "src": print_program(&prog, style), "settings": settings, "feats": feats, "mutations": how,
-                            "style_bits": style_bits, "ast": serde_json::to_value(&prog).unwrap(), "ast_twin": twin_json}))
+                            "style_bits": style_bits, "ast": serde_json::to_value(&prog).unwrap(), "ast_twin": twin_json, "key": {"permuted_record_literal": permuted}}))
             }
             _ => {
                 let mut twin_rng = rng.clone();
